@@ -48,7 +48,7 @@ def run_check(prop: str, tier: str, repo: str | None, quiet: bool = False, write
             violations.append(f)
     wall = time.time() - t0
     if write:
-        write_evidence(ctx, wall, seed, hits, len(violations))
+        write_evidence(ctx, wall, seed, hits, len(violations), error="; ".join(ctx.errors) if ctx.errors else None)
     if not quiet:
         n_ok = sum(1 for o in ctx.obligations if o.ok)
         print(f"{prop} [{tier}] obligations={len(ctx.obligations)} discharged={n_ok} "
@@ -58,7 +58,13 @@ def run_check(prop: str, tier: str, repo: str | None, quiet: bool = False, write
             path = write_replay(f, i) if write else "-"
             print(f"  {f.rule} {f.loc} in {f.function}: {f.message}\n      construct: {f.construct}")
             print(f"VIOLATION property={prop} replay={path}")
+        for e in ctx.errors:
+            print(f"  (also) ANALYSIS-ERROR {e}")
         return 1
+    if ctx.errors:
+        for e in ctx.errors:
+            print(f"ANALYSIS-ERROR property={prop} {e}")
+        return 2
     return 0
 
 
